@@ -12,6 +12,8 @@ VARIABLE case
 V3(x, y, z) == <<x, y, z>>
 \* grid of w x h unit squares; diag[k] in {0,1} chooses the diagonal of square k (row-major)
 GridV(w, h) == [k \in 1..((w + 1) * (h + 1)) |-> V3((k - 1) % (w + 1), (k - 1) \div (w + 1), 0)]
+\* sheared grid: same connectivity, vertices (x + k*y, y): obtuse triangles, non-Delaunay diagonals, negative cotangent weights
+ShearV(w, h, k) == [j \in 1..((w + 1) * (h + 1)) |-> V3(((j - 1) % (w + 1)) + k * ((j - 1) \div (w + 1)), (j - 1) \div (w + 1), 0)]
 Vid(w, x, y) == y * (w + 1) + x
 SquareF(w, x, y, dg) == LET a == Vid(w, x, y) b == Vid(w, x + 1, y) c == Vid(w, x + 1, y + 1) d == Vid(w, x, y + 1) IN
     IF dg = 0 THEN << <<a, b, c>>, <<a, c, d>> >> ELSE << <<a, b, d>>, <<b, c, d>> >>
@@ -29,6 +31,8 @@ Disks ==
     {[name |-> "ell", vpos |-> GridV(2, 2), faces |-> GridF(2, 2, d, {4}), planar |-> TRUE] : d \in Diags(4)} \cup
     {[name |-> "grid22", vpos |-> GridV(2, 2), faces |-> GridF(2, 2, d, {}), planar |-> TRUE] : d \in Diags(4)} \cup
     {[name |-> "hex", vpos |-> HexV, faces |-> HexF, planar |-> TRUE]} \cup
+    {[name |-> "shear", vpos |-> ShearV(2, 2, k), faces |-> GridF(2, 2, d, {}), planar |-> TRUE] : k \in {1, 2}, d \in Diags(4)} \cup
+    {[name |-> "shearstrip", vpos |-> ShearV(3, 1, 2), faces |-> GridF(3, 1, d, {}), planar |-> TRUE] : d \in Diags(3)} \cup
     {[name |-> "pyramid", vpos |-> PyrV(hh), faces |-> HexF, planar |-> FALSE] : hh \in {1, 3}}
 NonDisks ==
     {[name |-> "tetra", vpos |-> <<V3(0,0,0), V3(3,0,0), V3(0,3,0), V3(0,0,3)>>, faces |-> << <<0,2,1>>, <<0,1,3>>, <<1,2,3>>, <<0,3,2>> >>, planar |-> FALSE],
